@@ -1598,6 +1598,25 @@ def run(ck: core.Check):
         opname, a, b = job
         dt_a = env.dtypes[a]
         xs = grid(np, dt_a)
+        if isinstance(b, tuple) and b[0] == "np":
+            # a numpy integer scalar next to an integer Var: theorems arith_npscalar_right/left. On the left the
+            # dispatcher method is called directly (Python hands `np.int32(3) - var` to numpy first)
+            _, side, db, v = b
+            npv = np.dtype(env.dtypes[db]).type(v)
+            vv = grid(np, dt_a, divisor=(opname == "floordiv" and side == "l"))
+            if opname == "floordiv" and side == "l":
+                vv = vv[vv != -1]
+            va = env.spox.argument(env.spox.Tensor(np.dtype(dt_a), ("N",)))
+            with env.fut.operator_overloading(env.op, type_promotion=True):
+                rr = PYOP[opname](va, npv) if side == "r" else getattr(env.dispatcher(), opname)(npv, va)
+            if np.dtype(rr.type.dtype).kind not in "iu":
+                return None
+            got, _ = env.run_model(rr, {"a": va}, {"a": vv})
+            if side == "r":
+                return ({"settings": [True, True], "op": opname, "a": ["var", a], "b": ["np", db],
+                         "xs": [int(t) for t in vv], "ys": [v]}, [[int(t)] for t in got])
+            return ({"settings": [True, True], "op": opname, "a": ["np", db], "b": ["var", a],
+                     "xs": [v], "ys": [int(t) for t in vv]}, [[int(t) for t in got]])
         if isinstance(b, tuple):
             # a Python int on the right ("r") or on the left ("l") of an integer Var: theorems arith_scalar_right/left
             side, v = b
@@ -1637,6 +1656,11 @@ def run(ck: core.Check):
 
     jobs = [(opname, a, b) for opname in ["add", "sub", "mul", "floordiv"] for a in INT for b in INT]
     jobs += [("neg", a, None) for a in range(4)]
+    for opname in ["add", "sub", "mul", "floordiv"]:
+        for a in (0, 2, 4, 6):  # int8, int32, uint8, uint32 Vars x numpy scalars of three dtypes
+            for db, v in ((2, 1000), (1, -7), (4, 200)):
+                jobs.append((opname, a, ("np", "r", db, v)))
+                jobs.append((opname, a, ("np", "l", db, v)))
     for opname in ["add", "sub", "mul", "floordiv"]:
         for a in INT:
             signed = np.dtype(env.dtypes[a]).kind == "i"
